@@ -425,6 +425,8 @@ def main(argv=None):
     outdir = tempfile.mkdtemp(prefix='vf-%s-' % prop, dir=base)
     crashed = []
     results = []
+    hung = {}
+    case_max = 0.0
     try:
         ctxm = multiprocessing.get_context('fork')
         procs = []
@@ -433,8 +435,38 @@ def main(argv=None):
                                                   nshards, outdir, t_end))
             p.start()
             procs.append(p)
+        # watchdog: a worker whose current case (journal written before
+        # every evaluation) has been running for case_max_s is killed and
+        # reported as INCONCLUSIVE (exit 2) - a wall-clock limit is never a
+        # violation; deterministic iteration counters inside the checks are
+        # what turns non-termination into a violation
+        case_max = float(os.environ.get('VF_CASE_MAX_S') or
+                         budget.get('case_max_s', 900))
+        started = time.time()
+        hung = {}
+        while any(p.is_alive() for p in procs):
+            time.sleep(0.2)
+            now = time.time()
+            for sh, p in enumerate(procs):
+                if not p.is_alive() or sh in hung:
+                    continue
+                jp = os.path.join(outdir, 'journal-%d.json' % sh)
+                try:
+                    t_case = os.path.getmtime(jp)
+                except OSError:
+                    t_case = started
+                if now - t_case > case_max:
+                    spec = None
+                    try:
+                        spec = json.load(open(jp))
+                    except Exception:
+                        pass
+                    hung[sh] = spec
+                    p.kill()
         for sh, p in enumerate(procs):
             p.join()
+            if sh in hung:
+                continue
             rp = os.path.join(outdir, 'result-%d.json' % sh)
             if os.path.exists(rp):
                 with open(rp) as fi:
@@ -469,6 +501,17 @@ def main(argv=None):
             errors.append(dict(error='worker %d died with exit code %s' %
                                (sh, code), trace='', spec=spec))
     fdir = os.path.join(root, 'replays', prop, 'found')
+    for sh, spec in sorted(hung.items()):
+        os.makedirs(fdir, exist_ok=True)
+        hp = os.path.join(fdir, '%s-hang-%d.json' % (prop, sh))
+        with open(hp, 'w') as fo:
+            json.dump(dict(property=prop, sig='inconclusive|case-wall-limit',
+                           detail='case still running after %.0f s' %
+                           case_max, spec=spec, expect='pass'), fo, indent=1,
+                      default=str)
+        errors.append(dict(error='INCONCLUSIVE: worker %d killed, one case '
+                           'ran longer than %.0f s (spec saved as %s)' %
+                           (sh, case_max, hp), trace=''))
     for sig, v in sorted(seen.items()):
         rc = 1
         if v.get('replay'):
